@@ -7,6 +7,8 @@ faces, so C07 needs a supply of meshes where *every* face (including pentagons a
   prism / frustum / oblique frustum over a random convex n-gon (closed, or open "cup" with the lid removed)
   pyramid over a convex n-gon, antiprism (n-gons + triangles), dodecahedron (dual of the icosahedron)
   planar Delaunay triangulation whose interior vertex stars with a convex link are merged into one polygon each
+  make(seed, nonconvex=True): planar simple NON-convex faces (notched pentagon, dart quad, L, arrow, T, U, random star-like
+  5..8-gons) as a bare face, as the two lids of a prism / one lid of a cup, or with out-of-plane triangle flaps
 
 make(seed) -> dict(V, F, cls, topo), certified by the reference analyser exactly like surfaces.make."""
 import math
@@ -137,6 +139,83 @@ def star_merged_delaunay(rng, npts):
     return V2, G2, "star_merged_delaunay"
 
 
+# ----------------------------------------------------------------------------- planar simple NON-convex polygons
+def nonconvex_polygon(rng):
+    """(points in the plane z=0, counter-clockwise, name): notched pentagon, dart, L, arrow, T, U, random star-shaped polygon."""
+    k = rng.randrange(11)
+    u = rng.uniform
+    easy = rng.random() < 0.6      # shallow notch / thick L: the polygon stays star-shaped around the mean of its vertices
+    if k == 0:
+        w, h = u(2, 5), u(2, 4)
+        P = [(0, 0), (w, 0), (w, h), (w / 2 + u(-0.3, 0.3) * w, (u(0.55, 0.85) if easy else u(0.15, 0.45)) * h), (0, h)]
+        name = "notched_pentagon"
+    elif k == 1:
+        a, b = u(1.5, 3), u(0.6, 1.5)
+        P = [(0, 0), (a, -b), (u(0.2, 0.7) * a, u(-0.2, 0.2) * b), (a, b)]
+        name = "dart_quad"
+    elif k == 2:
+        a, d = u(2, 4), u(2, 4)
+        c, b = ((u(0.55, 0.8) * a, u(0.55, 0.8) * d) if easy else (u(0.25, 0.7) * a, u(0.25, 0.45) * d))
+        P = [(0, 0), (a, 0), (a, b), (c, b), (c, d), (0, d)]
+        name = "L_hexagon"
+    elif k == 3:
+        L, s_, H, T = u(1.5, 4), u(0.3, 0.8), u(1.0, 2.0), u(1, 2.5)
+        P = [(0, -s_), (L, -s_), (L, -H), (L + T, 0), (L, H), (L, s_), (0, s_)]
+        name = "arrow_heptagon"
+    elif k == 4:
+        s_, h, W, t = u(0.4, 0.9), u(1, 3), u(1.5, 3), u(0.5, 1.5)
+        P = [(-s_, 0), (s_, 0), (s_, h), (W, h), (W, h + t), (-W, h + t), (-W, h), (-s_, h)]
+        name = "T_octagon"
+    elif k == 5:
+        W, H = u(3, 5), u(2, 4)
+        a, b = u(0.2, 0.3) * W, u(0.25, 0.7) * H
+        P = [(0, 0), (W, 0), (W, H), (W - a, H), (W - a, b), (a, b), (a, H), (0, H)]
+        name = "U_octagon"
+    else:
+        n = rng.choice([5, 6, 7, 8])
+        off = u(0, 2 * math.pi)
+        P = []
+        for i in range(n):
+            t = off + 2 * math.pi * (i + 0.3 * u(-0.5, 0.5)) / n
+            r = u(0.35, 0.6) if (i % 2 == 1 or rng.random() < 0.15) else u(0.9, 1.3)
+            P.append((r * math.cos(t), r * math.sin(t)))
+        name = "starlike_%dgon" % n
+    sx, sy = u(0.7, 1.5), u(0.7, 1.5)
+    return np.array([[x * sx, y * sy, 0.0] for x, y in P]), name
+
+
+def nonconvex_surface(rng):
+    """A small surface carrying one or two planar non-convex faces: the bare face, a prism / cup over it, or the face with triangle flaps."""
+    B, name = nonconvex_polygon(rng)
+    n = len(B)
+    form = rng.randrange(4)
+    if form == 0:
+        return B, [list(range(n))], name
+    if form in (1, 2):
+        lid = form == 1
+        T = B + np.array([0, 0, rng.uniform(0.5, 1.5)])
+        V = np.vstack([B, T])
+        F = [list(reversed(range(n)))]
+        if lid:
+            F.append([n + i for i in range(n)])
+        for i in range(n):
+            j = (i + 1) % n
+            F.append([i, j, n + j, n + i])
+        return V, F, name + ("_prism" if lid else "_cup")
+    V = [tuple(p) for p in B]
+    F = [list(range(n))]
+    for i in range(n):
+        if rng.random() < 0.5:
+            j = (i + 1) % n
+            e = B[j] - B[i]
+            out = np.array([e[1], -e[0], 0.0])
+            out = out / np.linalg.norm(out)
+            m = (B[i] + B[j]) / 2 + out * rng.uniform(0.1, 0.4) * np.linalg.norm(e) + np.array([0, 0, rng.uniform(0.3, 1.0) * rng.choice([-1, 1])])
+            V.append(tuple(m))
+            F.append([j, i, len(V) - 1])
+    return np.array(V, float), F, name + "_flaps"
+
+
 def _draw(rng):
     k = rng.randrange(8)
     n = rng.choice([3, 4, 5, 5, 6, 6, 7, 8, 9, 11])
@@ -155,11 +234,11 @@ def _draw(rng):
     return star_merged_delaunay(rng, rng.randint(12, 60))
 
 
-def make(seed):
+def make(seed, nonconvex=False):
     rng = random.Random(seed)
     for _ in range(100):
         try:
-            V, F, name = _draw(rng)
+            V, F, name = nonconvex_surface(rng) if nonconvex else _draw(rng)
         except Exception:
             continue
         V = np.asarray(V, float)
